@@ -622,12 +622,12 @@ pub fn run(ctx: &Ctx, rep: &mut Report, replay: Option<&serde_json::Value>) {
         return;
     }
     let _ = Cell::new(0);
-    run_prop(ctx, rep, "ops", ctx.tier.pick(2_000, 100_000), case_strategy(40), &seq);
-    run_prop(ctx, rep, "long", ctx.tier.pick(60, 3_000), case_strategy(300), &seq);
-    run_prop(ctx, rep, "bytes", ctx.tier.pick(800, 30_000), prop::collection::vec(any::<u8>(), 0..300).prop_map(Hex), &bytes);
+    run_prop(ctx, rep, "ops", ctx.tier.pick(2_000, 40_000), case_strategy(40), &seq);
+    run_prop(ctx, rep, "long", ctx.tier.pick(60, 1_000), case_strategy(300), &seq);
+    run_prop(ctx, rep, "bytes", ctx.tier.pick(800, 10_000), prop::collection::vec(any::<u8>(), 0..300).prop_map(Hex), &bytes);
     let d3 = scratch.path().to_path_buf();
     crate::fz::replay_corpus(ctx, rep, "archive_ops", |d, i| judge_bytes(&d3, d, i));
     if ctx.tier == Tier::Thorough {
-        crate::fz::campaign(ctx, rep, "archive_ops", 300_000, 512, |d, i| judge_bytes(&d3, d, i));
+        crate::fz::campaign(ctx, rep, "archive_ops", 30_000, 512, |d, i| judge_bytes(&d3, d, i));
     }
 }
